@@ -18,6 +18,33 @@ def sp_cfg(s, h, a, senders, per):
             % (",".join(str(i) for i in range(1, senders + 1)), per, s, h, a))
 
 
+def midser_scenarios():
+    """a retransmission of everything sent so far is requested while the newest message is being serialized"""
+    return [dict(id="midser-%s-%d-%d" % (role[0], n, buf), kind="midser", role=role, gate="", n=n, order=[], startSeq=0, buf=buf, perSender=0, hb=30, seed=1,
+                 replyAt=-1, reuse=False, **{"yield": 0}) for role in ("acceptor", "initiator") for n in (0, 2) for buf in (1, 10)]
+
+
+def stress_scenarios(rnd, n):
+    return [dict(id="stress-%d" % i, kind="stress", role=rnd.choice(["acceptor", "initiator"]), n=rnd.choice([2, 4, 8, 16]),
+                 perSender=rnd.choice([3, 10, 30]), hb=rnd.choice([1, 2]), seed=rnd.randint(1, 10**6),
+                 startSeq=rnd.choice([0, 0, 7]), buf=rnd.choice([0, 1, 10]), replyAt=-1, reuse=(i % 3 == 2),
+                 **{"yield": rnd.choice([0, 3, 10, 30])}) for i in range(n)]
+
+
+def stress_rejects(run, seed, quick):
+    """free-running senders + inbound replies / retransmissions + timers (virtual time, several GOMAXPROCS): WireTrace's rejects"""
+    rnd = random.Random(seed * 7919 + 11)
+    binp = go_test_build("./sess/", "sess.test")
+    scns = stress_scenarios(rnd, 60 if quick else 1500) + midser_scenarios()
+    traces = []
+    for gi, gm in enumerate(["4", "16"]):
+        part = [s for j, s in enumerate(scns) if j % 2 == gi]
+        traces += sc.run_driver(run, binp, part, "stress-gomax%s" % gm, testname="TestSendPath", extra_env={"GOMAXPROCS": gm})
+    run.traces += len(scns)
+    run.extra["concurrent_send_resend_stress"] = {"scenarios": len(scns)}
+    return sc.validate(run, traces, module="WireTrace", mods=["WireTrace.tla"])
+
+
 def check(prop, tier, seed):
     run = Run(prop, tier, seed)
     quick = tier == "quick"
@@ -82,11 +109,7 @@ def check(prop, tier, seed):
                                      startSeq=rnd.choice([0, 0, 4]), buf=rnd.choice([1, 10]), replyAt=rnd.randint(0, n)))
                     k += 1
     ngate = len(scns)
-    for i in range(40 if quick else 1500):
-        scns.append(dict(id="stress-%d" % i, kind="stress", role=rnd.choice(["acceptor", "initiator"]), n=rnd.choice([2, 4, 8, 16]),
-                         perSender=rnd.choice([3, 10, 30]), hb=rnd.choice([1, 2]), seed=rnd.randint(1, 10**6),
-                         startSeq=rnd.choice([0, 0, 7]), buf=rnd.choice([0, 1, 10]), replyAt=-1, reuse=(i % 3 == 2),
-                         **{"yield": rnd.choice([0, 3, 10, 30])}))
+    scns += stress_scenarios(rnd, 40 if quick else 1500) + midser_scenarios()
     traces = []
     # GOMAXPROCS settings: the pool is split over them
     for gi, gm in enumerate((["1", "4", "16"] if quick else ["1", "2", "4", "16"])):
